@@ -33,7 +33,7 @@ def main():
     ck = Check('C07', 'model_checking')
     quick = ck.tier == 'quick'
     ck.bounds = {'single predicates': 'needle <= %d bytes, haystack <= %d bytes, all byte values' % ((3, 4) if quick else (4, 6)),
-                 'automaton': '%s needles of 0..2 bytes, haystack <= %d bytes, ASCII, member kinds symbolic, 3 occurrence orders; '
+                 'automaton': '%s needles of 0..2 bytes (three needles: total <= 3 bytes, haystack <= 3, 2 orders), haystack <= %d bytes, ASCII, member kinds symbolic, 3 occurrence orders; '
                               'two needles also over well-formed UTF-8 haystacks with characters of up to %d bytes' % (
                      '2' if quick else '2..3', 3 if quick else 4, 2 if quick else 3),
                  'pattern syntax': 'strings <= %d bytes' % (5 if quick else 7)}
@@ -46,10 +46,10 @@ def main():
     nn = [2] if quick else [2, 3]
     for n in nn:
         for lens in itertools.product(range(0, 3), repeat=n):
-            if n == 3 and sum(lens) > 4:
+            if n == 3 and sum(lens) > 3:
                 continue
             for ins in (False, True):
-                for order in ('end', 'pattern', 'rev'):
+                for order in (('end', 'pattern', 'rev') if n == 2 else ('end', 'rev')):
                     units.append(('aho', lens, ins, order))
     for lens in itertools.product(range(0, 3), repeat=2):
         for ins in (False, True):
@@ -97,7 +97,7 @@ def run_unit(ck, unit):
         uni = engine.Universe()
         uni.aho_order = order
         ex = ck.new_engine(prog, uni=uni, summarise=())
-        hcap = 3 if quick else 4
+        hcap = 3 if (quick or len(lens) > 2) else 4
         if utf8:
             # haystacks with multi-byte characters: byte offsets and character counts differ
             from mirsym.models_chars import fresh_utf8
